@@ -168,9 +168,11 @@ proof fn lemma_le_push(s: Seq<BedEntry>, x: BedEntry, b: u32)
             let all = old(items)@.push(current_val);
             if next_val.is_none() || all.len() >= options.items_per_slot as int {
                 &&& final(ftx).batches() == old(ftx).batches().push(Batch { items: all, chrom: chrom_id, compress: options.compress })
+                &&& final(ftx).log() == old(ftx).log() + all
                 &&& final(items)@.len() == 0
             } else {
                 &&& final(ftx).batches() == old(ftx).batches()
+                &&& final(ftx).log() == old(ftx).log()
                 &&& final(items)@ == all
             }
         }),
@@ -212,6 +214,84 @@ proof fn lemma_le_push(s: Seq<BedEntry>, x: BedEntry, b: u32)
     }
 //@end
 
+
+// ---------------- adequacy: the per-call clauses compose over a whole chromosome ----------------
+/// concatenation of the emitted sections
+pub open spec fn flat(bs: Seq<Batch>) -> Seq<BedEntry>
+    decreases bs.len()
+{
+    if bs.len() == 0 { Seq::empty() } else { flat(bs.drop_last()) + bs.last().items }
+}
+/// state of one chromosome's writer after the accepted entries `hist` (input order)
+pub open spec fn chain_inv(sink: SectionSink, items: Seq<BedEntry>, hist: Seq<BedEntry>, ips: u32, chrom: u32, compress: bool) -> bool {
+    &&& accepted(sink, items) == hist
+    &&& flat(sink.batches()) == sink.log()
+    &&& items.len() < ips
+    &&& batches_ok(sink.batches(), ips, chrom, compress)
+    &&& batches_sorted(sink.batches())
+    &&& starts_sorted(hist)
+}
+proof fn lemma_le_suffix(a: Seq<BedEntry>, b: Seq<BedEntry>, m: u32)
+    requires all_start_le(a + b, m),
+    ensures all_start_le(b, m),
+{
+    assert forall|i: int| 0 <= i < b.len() implies (#[trigger] b[i]).start <= m by {
+        assert((a + b)[a.len() + i] == b[i]);
+    }
+}
+/// Hand-written client (NOT repository code): one step of the per-chromosome feeding loop of
+/// beddata.rs (`do_process(val, next_value)` with next_value = the following entry of the same
+/// chromosome or None).  It only calls the extracted `process_val`; what is proved is that the
+/// labelled postconditions above are strong enough to carry `chain_inv` from entry to entry and
+/// to conclude, at the last entry, that the emitted sections are exactly the input, in order.
+fn chain_step(
+    current_val: BedEntry, next_val: Option<&BedEntry>, chrom_length: u32, chrom: &String,
+    summary: &mut Option<Summary>, items: &mut Vec<BedEntry>, overlap: &mut Overlap,
+    options: &BBIWriteOptions, runtime: &Handle, ftx: &mut SectionSink, chrom_id: u32,
+    Ghost(hist): Ghost<Seq<BedEntry>>,
+) -> (r: Result<(), ProcessDataError>)
+    requires
+        chain_inv(*old(ftx), old(items)@, hist, options.items_per_slot, chrom_id, options.compress),
+        all_start_le(hist, current_val.start),
+    ensures
+        [[L: chain/invariant_is_inductive]]
+        r.is_ok() ==> chain_inv(*final(ftx), final(items)@, hist.push(current_val), options.items_per_slot, chrom_id, options.compress)
+            && (next_val.is_some() ==> all_start_le(hist.push(current_val), next_val.unwrap().start)),
+        [[L: chain/whole_chromosome_delivered_in_order]]
+        r.is_ok() && next_val.is_none() ==> flat(final(ftx).batches()) == hist.push(current_val) && final(items)@.len() == 0,
+        [[L: chain/refusal_keeps_state]]
+        r.is_err() ==> chain_inv(*final(ftx), final(items)@, hist, options.items_per_slot, chrom_id, options.compress),
+{
+    proof {
+        lemma_sorted_suffix(ftx.log(), items@);
+        lemma_le_suffix(ftx.log(), items@, current_val.start);
+    }
+    let ghost bs0 = ftx.batches();
+    let ghost log0 = ftx.log();
+    let ghost items0 = items@;
+    let ghost all = items@.push(current_val);
+    let r = process_val(current_val, next_val, chrom_length, chrom, summary, items, overlap, options, runtime, ftx, chrom_id);
+    proof {
+        if r.is_ok() {
+            if next_val.is_none() || all.len() >= options.items_per_slot as int {
+                let b = Batch { items: all, chrom: chrom_id, compress: options.compress };
+                assert(bs0.push(b).drop_last() =~= bs0);
+                assert(bs0.push(b).last() == b);
+                assert(ftx.log() + items@ =~= ftx.log());
+                assert((log0 + items0).push(current_val) =~= log0 + all);
+                assert(ftx.log() == log0 + all);
+                assert(flat(ftx.batches()) == ftx.log());
+            } else {
+                assert(items@ == all);
+            }
+            assert(accepted(*ftx, items@) == hist.push(current_val));
+            assert(batches_ok(ftx.batches(), options.items_per_slot, chrom_id, options.compress));
+            assert(batches_sorted(ftx.batches()));
+            assert(starts_sorted(hist.push(current_val)));
+        }
+    }
+    r
+}
 
 // =====================================================================================
 // (2) item counting: the two `do_process` methods
